@@ -13,10 +13,10 @@ import (
 type Decision struct {
 	Kind   uint8 // 0 = branch, 1 = value (concretisation / choice)
 	B      bool
-	Forced bool     // branch: only this side was feasible (nothing asserted on replay)
-	Free   bool     // value: harness-level choice, no term equality to assert
-	V      uint64   // value chosen
-	Pend   bool     // pending value decision: pick a value within [Lo, Hi] (unsigned)
+	Forced bool   // branch: only this side was feasible (nothing asserted on replay)
+	Free   bool   // value: harness-level choice, no term equality to assert
+	V      uint64 // value chosen
+	Pend   bool   // pending value decision: pick a value within [Lo, Hi] (unsigned)
 	Lo, Hi uint64
 }
 
@@ -105,6 +105,7 @@ type Exec struct {
 	nowSeq    int
 	lastNow   *Term
 	goroutine int
+	stack     []*ssa.Function
 	spec      int
 
 	allVars []*Term
@@ -112,6 +113,8 @@ type Exec struct {
 	memo    map[*Term]uint64
 	modelOK bool
 	ranges  map[*Term]urange
+
+	concreteModel map[string]uint64 // selftest mode: decisions are evaluated under this assignment, no solver
 }
 
 func (in *Exec) replaying() bool { return in.pos < len(in.prefix) }
@@ -125,7 +128,13 @@ func (in *Exec) where() string {
 		return ""
 	}
 	pos := in.W.X.Prog.Fset.Position(in.curInstr.Pos())
-	return fmt.Sprintf(" [in %s at %s]", in.curFn.String(), pos)
+	via := ""
+	if in.W.X.Cfg.Trace {
+		for i := len(in.stack) - 2; i >= 0 && i >= len(in.stack)-9; i-- {
+			via += " < " + in.stack[i].String()
+		}
+	}
+	return fmt.Sprintf(" [in %s at %s%s]", in.curFn.String(), pos, via)
 }
 
 func (in *Exec) addPC(t *Term) {
@@ -159,6 +168,12 @@ func (in *Exec) query(extra *Term, adopt bool) SatResult {
 		s.Assert(extra)
 	}
 	r := s.Check()
+	if r == Unknown {
+		if extra != nil {
+			s.Pop()
+		}
+		return in.queryFallback(extra, adopt)
+	}
 	if r == Sat && adopt {
 		m, err := s.Values(in.allVars)
 		if err != nil {
@@ -173,6 +188,47 @@ func (in *Exec) query(extra *Term, adopt bool) SatResult {
 	}
 	if extra != nil {
 		s.Pop()
+	}
+	return r
+}
+
+// queryFallback re-asks a query the primary solver gave up on to the secondary solver (fresh scope holding the
+// whole path condition).
+func (in *Exec) queryFallback(extra *Term, adopt bool) SatResult {
+	w := in.W
+	kind := w.X.Cfg.Fallback
+	if kind == "" || kind == w.X.Cfg.Solver {
+		return Unknown
+	}
+	if w.S2 == nil || w.S2.dead {
+		s2, err := NewSolver(kind, w.X.Cfg.TimeoutMs*3)
+		if err != nil {
+			return Unknown
+		}
+		w.S2 = s2
+	}
+	s2 := w.S2
+	w.stats.Fallbacks++
+	s2.Push()
+	for _, t := range in.pc {
+		s2.Assert(t)
+	}
+	if extra != nil {
+		s2.Assert(extra)
+	}
+	r := s2.Check()
+	if r == Sat && adopt {
+		if m, err := s2.Values(in.allVars); err == nil {
+			in.model = m
+			in.memo = nil
+			in.modelOK = true
+		} else {
+			r = Unknown
+		}
+	}
+	s2.Pop()
+	if r == Unknown {
+		w.S.LastErr = "unknown/timeout on " + w.X.Cfg.Solver + " and " + kind
 	}
 	return r
 }
@@ -200,6 +256,9 @@ func (in *Exec) record(d Decision) {
 func (in *Exec) branch(c *Term) bool {
 	if c.IsConst() {
 		return c.V == 1
+	}
+	if in.concreteModel != nil {
+		return Eval(c, in.concreteModel, map[*Term]uint64{}) == 1
 	}
 	if in.tolerant > 0 {
 		panic(pathAbort{abInconclusive, "symbolic branch during package initialisation"})
@@ -502,7 +561,7 @@ func (in *Exec) buildViolation(label, kind, site string) *Violation {
 // concretise evaluates all draws and observations under model m.
 func (in *Exec) concretise(m map[string]uint64) ([]Draw, []ObsOut) {
 	memo := map[*Term]uint64{}
-	var draws []Draw
+	draws := []Draw{}
 	for _, i := range in.inputs {
 		d := Draw{Label: i.Label, Kind: i.Kind}
 		switch i.Kind {
